@@ -24,6 +24,7 @@ func runC04(c *Ctx) {
 	c04CacheKey(c)
 	c04CompositeLoc(c)
 	c04KeyVerbatim(c)
+	c04PostAlways(c, "C04.post-always")
 }
 
 func c04KeyLoc(c *Ctx) {
